@@ -71,7 +71,8 @@ def mutate(d):
 
 
 SEEDS = seeds()
-tmpdir = tempfile.mkdtemp(prefix="c08-")
+import common as _common
+tmpdir = _common.mkdtemp("c08-")
 
 
 def ep_from_bytes(d):
@@ -160,5 +161,5 @@ try:
     os.remove(os.path.join(tmpdir, "s.bin"))
 except OSError:
     pass
-os.rmdir(tmpdir)
+_common.cleanup_tmp()
 emit(list(comps.values()))
